@@ -57,6 +57,10 @@ fn main() {
             let outp = arg_val(&args, "--out").expect("--out");
             let out = worker(&cfg);
             std::fs::write(&outp, serde_json::to_vec(&out).unwrap()).expect("write batch output");
+            if out.ended_early.is_some() {
+                // a stuck workload thread is still spinning: leave without joining it
+                unsafe { libc::syscall(libc::SYS_exit_group, 0) };
+            }
         }
         "one" => {
             // run one generated plan and print everything
@@ -104,6 +108,9 @@ fn main() {
                 for l in &rr.log_tail {
                     println!("{}", l);
                 }
+            }
+            if rr.stuck {
+                unsafe { libc::syscall(libc::SYS_exit_group, if same { 1 } else { 0 }) };
             }
             std::process::exit(if same { 1 } else { 0 });
         }
